@@ -8,7 +8,9 @@
                     the observed yields are a prefix of the specification's, followed by TooLong only where a
                     group does not fit; never a panic.
    The oracles are written from the property texts and the WHATWG line structure; they do not use the
-   model (no split_func, no scanner). *)
+   model (no split_func, no scanner).
+   Entry 4 (second attempt of a Connection): the initial last event ID is not an input, it is what the first
+   attempt's body (nth 6 of the input) leaves behind - see [model_case] / [carried_ids]. *)
 From GoSse Require Import Base Lines FieldParser Whatwg WhatwgLines Split Scanner Reader ReadLoop Yields Run.
 Local Open Scope nat_scope.
 
@@ -45,8 +47,29 @@ Definition enc_run (sees_retry : bool) (r : list yield * run_end * parser) : val
       VN (rd_pulled (p_rd p));
       VN (match e with EndNormal => 0 | EndPanic => 1 | EndOutOfFuel => 2 end)].
 
+(* ---- entry 4: the stream is the body of the Connection's SECOND attempt ------------------------------
+   The first attempt's response body is nth 6 of the input (delivered by one read, clean end, same buffer
+   configuration); its yields are not part of the observation.  What it leaves behind is the Connection's
+   last event ID: Connection.read stores the LastEventID of every event it dispatches, and the next attempt's
+   stream is read with it.  So the stream under test is interpreted with the ID carried over - the empty one
+   included, when the first stream reset it with an empty id field. *)
+Definition is_second (i : val) : bool := (as_n (nth_val 0 i) =? 4)%N.
+Definition first_body (i : val) : bytes := as_b (nth_val 6 i).
+Definition first_case (c : pcase) (first : bytes) : pcase :=
+  mkpc 1%N (match first with [] => [] | _ => [first] end) CleanEOF None (pc_buf c) [].
+Definition with_id0 (c : pcase) (id : bytes) : pcase :=
+  mkpc (pc_entry c) (pc_chunks c) (pc_ending c) (pc_stop c) (pc_buf c) id.
+(* the ID of the last event among these yields (none: the connection starts with the empty ID) *)
+Definition last_id (ys : list yield) : bytes :=
+  fold_left (fun l y => match y with YEv e => ev_id e | _ => l end) ys [].
+
+(* the model: the first attempt runs on the model stack too *)
+Definition model_case (i : val) : pcase :=
+  let c := dec_case i in
+  if is_second i then with_id0 c (last_id (fst (fst (run_case (first_case c (first_body i)))))) else c.
+
 Definition run_parse (i : val) : val :=
-  let c := dec_case i in enc_run (pc_sees_retry c) (run_case c).
+  let c := model_case i in enc_run (pc_sees_retry c) (run_case c).
 
 (* ---- the specification side ------------------------------------------------------------------ *)
 (* The limit L: "bufio allows tokens up to max(maxSize, cap(buf))" (DESIGN 4.2), default 64 KiB.
@@ -125,6 +148,22 @@ Definition spec_toolong (c : pcase) (off : N) : list yield :=
 
 Definition yields_eqb (a b : list yield) : bool := val_eqb (VL (map enc_yield a)) (VL (map enc_yield b)).
 
+(* Entry 4, specification side: the IDs the first attempt may leave behind.  By the statement of C20 its yields are
+   the whole interpretation of [first], or the interpretation up to a group that does not fit followed by TooLong;
+   the ID carried over is that of the last event among them.  When [first] fits the limit (the premise of C01 for
+   the connection as a whole) there is exactly one candidate: the ID after the whole interpretation. *)
+Definition carried_ids (c : pcase) (first : bytes) : list bytes :=
+  let c1 := first_case c first in
+  let L := limit_of c1 in
+  (if may_complete L first then [last_id (spec_full c1)] else []) ++
+  map (fun off => last_id (spec_toolong c1 off)) (toolong_points L (stream_needs first)).
+
+(* the cases an observation is judged against: the input as it is, or (entry 4) with each ID the first attempt
+   may have left *)
+Definition spec_cases (i : val) : list pcase :=
+  let c := dec_case i in
+  if is_second i then map (with_id0 c) (carried_ids c (first_body i)) else [c].
+
 (* ---- decoding the observation -------------------------------------------------------------------- *)
 Definition dec_serr (v : val) : serr :=
   match v with
@@ -143,16 +182,15 @@ Definition obs_pulled (o : val) : N := as_n (nth_val 1 o).
 Definition obs_panicked (o : val) : bool := negb (as_n (nth_val 2 o) =? 0)%N.
 
 (* C01: whenever every group fits the limit, the observed yields are the specification's *)
-Definition holds_parse_c01 (i o : val) : bool :=
-  let c := dec_case i in
+Definition holds_c01_case (c : pcase) (o : val) : bool :=
   if fitsb (limit_of c) (pc_stream c)
   then negb (obs_panicked o) && yields_eqb (obs_yields o) (visible c (spec_full c))
   else true.
+Definition holds_parse_c01 (i o : val) : bool := existsb (fun c => holds_c01_case c o) (spec_cases i).
 
 (* C20 *)
 Definition last_end (ends : list (N * N)) : N := match ends with [] => 0%N | _ => snd (last ends (0, 0)%N) end.
-Definition holds_parse_c20 (i o : val) : bool :=
-  let c := dec_case i in
+Definition holds_c20_case (c : pcase) (o : val) : bool :=
   let L := limit_of c in
   let s := pc_stream c in
   let pulled := obs_pulled o in
@@ -165,3 +203,4 @@ Definition holds_parse_c20 (i o : val) : bool :=
      never a truncated or partial event, TooLong only for a group that does not fit *)
   && ((may_complete L s && yields_eqb obs (visible c (spec_full c)))
       || existsb (fun off => yields_eqb obs (visible c (spec_toolong c off))) (toolong_points L (stream_needs s))).
+Definition holds_parse_c20 (i o : val) : bool := existsb (fun c => holds_c20_case c o) (spec_cases i).
